@@ -116,3 +116,28 @@ Proof.
     split; [discriminate|]. vm_compute. reflexivity.
   - vm_compute. repeat split; auto. eexists; repeat split; reflexivity.
 Qed.
+
+(* The class "reset while paused, resume that re-pauses inside its flush, then credit returns":
+   a sender starved of stream credit; the transport pauses; another call is cancelled (reset_nowait
+   queues an RST_STREAM in h2); the transport resumes and pauses again from inside the write of
+   that RST; the peer grants credit.  The sender is woken, finds write_ready clear, writes nothing. *)
+Definition rp_ops : list cop :=
+  [Op (Run 0); Op (Run 0); Op (Run 0); Op (Run 0);      (* 50 bytes sent, starved *)
+   Op Pause; ResetAux; ResumeP; Op (WinStream 0 1000)].
+Definition rp_c : conn := fst (crun (cinit [(40000, 50)] 65535 50 16384) rp_ops).
+
+Example ex_reset_resume_repause :
+  snd (crun (cinit [(40000, 50)] 65535 50 16384) rp_ops) = [mkChunk 0 0 50] /\
+  tpaused rp_c = true /\ wready (core rp_c) = false /\ hq rp_c = false /\
+  snd (cfifo None rp_c) = [] /\
+  map s_pc (senders (core (fst (cfifo None rp_c)))) = [WaitWrite] /\
+  (* and after a real resume the backlog goes out *)
+  snd (cfifo None (fst (cstep (fst (cfifo None rp_c)) (Op Resume))))
+    = [mkChunk 0 50 1000].
+Proof. vm_compute. repeat split; reflexivity. Qed.
+
+(* with nothing queued the transport has nothing to write in resume_writing and cannot re-pause *)
+Example ex_resume_p_without_queue :
+  let c := fst (crun (cinit [(40000, 50)] 65535 50 16384) [Op Pause; ResumeP]) in
+  tpaused c = false /\ wready (core c) = true.
+Proof. vm_compute. auto. Qed.
